@@ -1435,6 +1435,8 @@ func c17Replay(out *vh.Out, op string) {
 		c17Table(vh.UnhexRunes(toks[3]))
 	case "long":
 		c17LongReplay(out, toks[2:])
+	case "hist", "par":
+		c17Replay10(out, toks)
 	case "b":
 		args := []string{}
 		for _, t := range toks[3:] {
@@ -1477,6 +1479,8 @@ func TestVerifC17(t *testing.T) {
 	r := vh.NewRng(vh.Seed() + 17)
 	r8 := vh.NewRng(vh.Seed() + 1708)
 	r9 := vh.NewRng(vh.Seed() + 1709)
+	r10 := vh.NewRng(vh.Seed() + 1710)
+	r10p := vh.NewRng(vh.Seed() + 1711)
 	n := vh.N(3000)
 	fns1 := []string{"split", "unquote", "quote", "isascii", "toascii", "tounicode", "forlookup", "cleandomain", "dnsforlookup", "valid"}
 	for i := 0; i < n; i++ {
@@ -1535,6 +1539,14 @@ func TestVerifC17(t *testing.T) {
 		// size extremes through every function, each call under recover (own forked generator)
 		if i%12 == 7 {
 			c17LongCase(out, r9, i/12)
+		}
+		// round 10: histories about names the process has not seen before (first vs later answers), and the same
+		// calls made by several goroutines at once (own forked generators)
+		if i%6 == 4 {
+			c17HistCase(out, r10)
+		}
+		if i%60 == 11 {
+			c17ParCase(out, r10p)
 		}
 		// the three functions that got a correspondence op in round 9, on the strings of this iteration
 		if i%6 == 1 {
